@@ -33,7 +33,9 @@ def _make_inputs_factory(c, info, ctx):
             env[name] = v
         params, vararg, kwarg = info.params()
         for p, default in params:
-            if p in c.params:
+            if p in c.params and not isinstance(c.params[p], str):
+                env[p] = dict(c.params[p]) if isinstance(c.params[p], dict) else c.params[p]   # a literal python value
+            elif p in c.params:
                 env[p] = make_value(ex, c.params[p], p, {**senv, **env})
             elif default is not None:
                 from .symexec import _ModuleFrameInfo
